@@ -103,6 +103,14 @@ func runSolver(ctx context.Context, sp solverSpec, file string, timeoutS int) (s
 	cmd.Run()
 	ms = time.Since(start).Milliseconds()
 	out = buf.String()
+	// skip solver warnings (e.g. z3: "'not' cannot be used in patterns") before the answer
+	for strings.HasPrefix(out, "WARNING") || strings.HasPrefix(out, "(warning") {
+		i := strings.Index(out, "\n")
+		if i < 0 {
+			break
+		}
+		out = out[i+1:]
+	}
 	first := strings.TrimSpace(strings.SplitN(out, "\n", 2)[0])
 	switch first {
 	case "unsat", "sat", "unknown":
